@@ -207,6 +207,19 @@ static inline bool same_network(int tA, const Mat &NA, int tB, const Mat &NB, co
     return true;
 }
 
+// The same question answered literally by null spaces (no conversion involved): a basis of
+// null(R_A(NA)) is computed by rank-revealing elimination and pushed through R_B(NB); returns
+// |R_B Null(R_A)|_max / (|R_B|_inf |Null|_max) in normalised coordinates (0 iff same network).
+static inline real nullspace_residual(int tA, const Mat &NA, int tB, const Mat &NB, const std::vector<C> &z0) {
+    RelHat ha, hb; int n = (int)z0.size();
+    if (!relation_hat(tA, z0, ha) || !relation_hat(tB, z0, hb)) return INFINITY;
+    Mat RA = refla::sub(ha.D, refla::mul(to_hat(NA, ha.wD, ha.wE), ha.E));
+    Mat RB = refla::sub(hb.D, refla::mul(to_hat(NB, hb.wD, hb.wE), hb.E));
+    int rk; Mat Nsp = refla::nullspace(RA, 1e-13L, &rk);
+    if (rk != n || Nsp.c != n || !RB.all_finite()) return INFINITY;
+    return refla::norm_max(refla::mul(RB, Nsp)) / (refla::norm_inf(RB) * refla::norm_max(Nsp));
+}
+
 // ---- input impedance -------------------------------------------------------------------------
 struct ZinRef {
     bool ok = false;
@@ -282,16 +295,15 @@ static inline const char *selftest() {
     Mat Bm = from_states(P_B, U, z0, &ok);
     if (!ok || refla::norm_max(refla::sub(refla::mul(A, Bm), Mat::identity(2))) > 1e-15L) return "B is not the inverse of A";
     Mat H = from_states(P_H, U, z0, &ok), G = from_states(P_G, U, z0, &ok);
-    (void)G;   // G of a series element is singular-free: g = [[0,-1],[1,Zs]]
     Mat Hexp(2, 2); Hexp(0, 0) = Zs; Hexp(0, 1) = C(1); Hexp(1, 0) = C(-1);
     if (refla::norm_max(refla::sub(H, Hexp)) > 1e-15L) return "series element: H != [[Zs,1],[-1,0]]";
+    Mat Gexp(2, 2); Gexp(0, 1) = C(-1); Gexp(1, 0) = C(1); Gexp(1, 1) = Zs;     // i1 = -i2, v2 = v1 + Zs i2
+    if (!ok || refla::norm_max(refla::sub(G, Gexp)) > 1e-15L) return "series element: G != [[0,-1],[1,Zs]]";
     C zi1 = zin_from_states(U, z0, 0, &ok);
     if (!ok || refla::abs(zi1 - (Zs + z0[1])) > 1e-14L) return "series element: zin1 != Zs + Z2";
     C zi2 = zin_from_states(U, z0, 1, &ok);
     if (!ok || refla::abs(zi2 - (Zs + z0[0])) > 1e-14L) return "series element: zin2 != Zs + Z1";
-    // S, T, U: T and U are mutually inverse; S of the series element is reciprocal in the
-    // power-wave sense only for real z0, so test conjugate match instead: a one-port Z1* sees
-    // no reflection (s11 = 0) when port 2 is open-circuit free... use direct identities:
+    // S, T, U: T and U are mutually inverse, and T follows from S by the two definitions
     Mat S = from_states(P_S, U, z0, &ok), T = from_states(P_T, U, z0, &ok), Um = from_states(P_U, U, z0, &ok);
     if (!ok || refla::norm_max(refla::sub(refla::mul(T, Um), Mat::identity(2))) > 1e-14L) return "U is not the inverse of T";
     // t = [[-det(s)/s21, s11/s21], [-s22/s21, 1/s21]] follows from the two definitions
@@ -307,6 +319,8 @@ static inline const char *selftest() {
     if (relation_error(a, S) > 1e-16L) return "relation_error of the exact output is not 0";
     Mat S2 = S; S2(0, 1) = S2(0, 1) * C(1.001L);
     if (!(relation_error(a, S2) > 1e-5L)) return "relation_error does not see a perturbed output";
+    if (nullspace_residual(P_A, A, P_S, S, z0) > 1e-16L || nullspace_residual(P_H, H, P_T, T, z0) > 1e-16L) return "nullspace_residual of the same network is not 0";
+    if (!(nullspace_residual(P_A, A, P_S, S2, z0) > 1e-6L)) return "nullspace_residual does not see a perturbed matrix";
     // constraint null space: R_S(S) U = 0 and rank n
     Mat R = constraint(P_S, S, z0);
     if (refla::norm_max(refla::mul(R, U)) > 1e-13L || refla::rank(R) != 2) return "R_S(S) U != 0";
